@@ -1327,6 +1327,7 @@ macro_rules! impl_binop_assign {
                         self.data[i].$method(IArray::get_int(rhs, i).unwrap_or(I1::ZERO));
                     }
                 }
+                self.mod2n(self.length);
             }
         }
 
@@ -1348,6 +1349,7 @@ macro_rules! impl_binop_assign {
                 for i in 0..N {
                     self.data[i].$method(IArray::get_int(rhs, i).unwrap_or(I::ZERO));
                 }
+                self.mod2n(self.length);
             }
         }
 
